@@ -667,6 +667,14 @@ func run(t *testing.T, tape *simrt.Tape) *hx.Outcome {
 		walk(rn, 0)
 		l.WaitForPrefetchCompletion()
 		mt.Join(pf, bg)
+		// a second mount of the same (cached) layer after prefetch and background fetch have met whatever the
+		// bytes hold: resolving and verifying it again must return, too
+		if l2, err := rs.Resolve(context.Background(), hosts, refspec, desc); err == nil {
+			if err := l2.Verify(tocDigest); err != nil {
+				s.Stat("second_verify_failed", 1)
+			}
+			l2.Done()
+		}
 		l.Done()
 	})
 	out.Res = res
